@@ -43,6 +43,7 @@
 
 /* ------------------------------------------------------------ printf family */
 #define PR_MAXSTR 12
+#define PR_SMALL 48	/* objects up to this size are searched for their NUL */
 typedef struct {
 	const char *p[PR_MAXSTR];
 	size_t m[PR_MAXSTR];
@@ -109,6 +110,24 @@ static bool pr_known(const char *s, size_t *left)
 			*left = m - d;
 		}
 	}
+#ifndef VERIF_REPLAY
+	/* small objects (string literals, on-stack text buffers): look */
+	if (!ok && s != NULL && VERIF_R_OK(s, 1) &&
+	    VERIF_OBJECT_SIZE(s) <= PR_SMALL) {
+		size_t off = VERIF_POINTER_OFFSET(s), sz = VERIF_OBJECT_SIZE(s);
+		size_t j;
+
+		for (j = 0; j < PR_SMALL; ++j) {
+			if (off + j >= sz)
+				break;
+			if (s[j] == '\0') {
+				ok = true;
+				*left = j;
+				break;
+			}
+		}
+	}
+#endif
 	return ok;
 }
 
@@ -148,34 +167,61 @@ static size_t pr_ndigits(unsigned long long v, unsigned base)
 	return n;
 }
 
+/* sprintf output: one character / n equal characters at *pos (dst == NULL:
+ * nothing is produced, printf only checks its arguments) */
+static void pr_put(char *dst, size_t *pos, char ch)
+{
+	if (dst != NULL) {
+		VERIF_ASSERT(VERIF_W_OK(dst + *pos, 1), PR("sprintf.fits"));
+		dst[*pos] = ch;
+	}
+	++*pos;
+}
+
+static void pr_putn(char *dst, size_t *pos, char ch, size_t n)
+{
+	size_t i;
+
+	if (dst == NULL)
+		return;
+	for (i = 0; i < n; ++i)
+		pr_put(dst, pos, ch);
+}
+
+/* goto-cc 6.11 stores a variadic argument with its UNPROMOTED type (a
+ * sqfs_u16 handed to "%u" is a 2 byte object), so fetching it as int is
+ * reported as an out-of-bounds read. Where the value is not needed (printf:
+ * nothing is produced) the argument is skipped with a 1 byte fetch; natively
+ * the promoted type is used. */
+#ifdef VERIF_REPLAY
+#define PR_SKIP_INT(ap, lng) do { if (lng) (void)va_arg(ap, long); \
+				  else (void)va_arg(ap, int); } while (0)
+#else
+#define PR_SKIP_INT(ap, lng) ((void)va_arg(ap, char))
+#endif
+
 /* dst == NULL: only check. Otherwise produce output of the exact length,
  * every digit arbitrary, and require room for it. Returns the length. */
 static size_t pr_vfmt(char *dst, const char *fmt, va_list ap)
 {
 	size_t pos = 0;
 
-#define PR_PUT(ch) do { if (dst != NULL) { \
-		VERIF_ASSERT(VERIF_W_OK(dst + pos, 1), PR("sprintf.fits")); \
-		dst[pos] = (ch); } ++pos; } while (0)
 	for (; *fmt != '\0'; ++fmt) {
-		bool has_prec = false, lng = false, left_adj = false;
+		bool has_prec = false, lng = false;
 		long width = 0, prec = -1;
-		size_t n = 0, i;
+		size_t n = 0;
 
 		if (*fmt != '%') {
-			PR_PUT(*fmt);
+			pr_put(dst, &pos, *fmt);
 			continue;
 		}
 		++fmt;
 		if (*fmt == '%') {
-			PR_PUT('%');
+			pr_put(dst, &pos, '%');
 			continue;
 		}
-		while (*fmt == '-' || *fmt == '0') {
-			if (*fmt == '-')
-				left_adj = true;
+		while (*fmt == '-' || *fmt == '0')
 			++fmt;
-		}
 		if (*fmt == '*') {
 			width = va_arg(ap, int);
 			++fmt;
@@ -199,7 +245,6 @@ static size_t pr_vfmt(char *dst, const char *fmt, va_list ap)
 			lng = true;
 			++fmt;
 		}
-		(void)left_adj;
 		switch (*fmt) {
 		case 's': {
 			const char *s = va_arg(ap, const char *);
@@ -207,44 +252,59 @@ static size_t pr_vfmt(char *dst, const char *fmt, va_list ap)
 			pr_check_str(s, has_prec, prec);
 			if (dst != NULL) {
 				/* length of a known string: any n with s[n] == 0
-				   not beyond the known terminator */
+				   not beyond the known terminator; the copy is
+				   not done byte by byte (lengths are symbolic) */
 				size_t left = 0;
 				bool k = pr_known(s, &left);
 
 				VERIF_ASSERT(k, PR("sprintf.string_known"));
 				n = verif_nd_size("sprintf.strlen");
 				VERIF_ASSUME(n <= left && s[n] == '\0');
-				for (i = 0; i < n; ++i)
-					PR_PUT('s');
+				VERIF_ASSERT(n == 0 || VERIF_W_OK(dst + pos, n),
+					     PR("sprintf.fits"));
+				pos += n;
 			}
 			break;
 		}
 		case 'c':
-			(void)va_arg(ap, int);
-			PR_PUT('c');
+			PR_SKIP_INT(ap, false);
+			pr_put(dst, &pos, 'c');
 			break;
-		case 'd': {
-			long long v = lng ? va_arg(ap, long) : va_arg(ap, int);
-			unsigned long long a = v < 0 ? 0ULL - (unsigned long long)v :
-						       (unsigned long long)v;
+		case 'd':
+			if (dst != NULL) {
+				long long v;
+				unsigned long long a;
 
-			n = pr_ndigits(a, 10) + (v < 0 ? 1 : 0);
-			for (i = 0; i < n; ++i)
-				PR_PUT('1');
+				if (lng)
+					v = va_arg(ap, long);
+				else
+					v = va_arg(ap, int);
+				a = v < 0 ? 0ULL - (unsigned long long)v :
+					    (unsigned long long)v;
+				n = pr_ndigits(a, 10) + (v < 0 ? 1 : 0);
+				pr_putn(dst, &pos, '1', n);
+			} else {
+				PR_SKIP_INT(ap, lng);
+			}
 			break;
-		}
 		case 'u':
 		case 'o':
 		case 'x':
-		case 'X': {
-			unsigned long long v = lng ? va_arg(ap, unsigned long) :
-						     va_arg(ap, unsigned int);
+		case 'X':
+			if (dst != NULL) {
+				unsigned long long v;
 
-			n = pr_ndigits(v, *fmt == 'u' ? 10 : *fmt == 'o' ? 8 : 16);
-			for (i = 0; i < n; ++i)
-				PR_PUT('1');
+				if (lng)
+					v = va_arg(ap, unsigned long);
+				else
+					v = va_arg(ap, unsigned int);
+				n = pr_ndigits(v, *fmt == 'u' ? 10 :
+					       *fmt == 'o' ? 8 : 16);
+				pr_putn(dst, &pos, '1', n);
+			} else {
+				PR_SKIP_INT(ap, lng);
+			}
 			break;
-		}
 		default:
 			VERIF_ASSERT(0, PR("printf.known_format"));
 			return pos;
@@ -258,7 +318,6 @@ static size_t pr_vfmt(char *dst, const char *fmt, va_list ap)
 		VERIF_ASSERT(VERIF_W_OK(dst + pos, 1), PR("sprintf.fits"));
 		dst[pos] = '\0';
 	}
-#undef PR_PUT
 	return pos;
 }
 
@@ -456,6 +515,21 @@ static sqfs_inode_generic_t *w13_new_inode(unsigned type, unsigned nent,
 	}
 	ino = malloc(sizeof(*ino) + avail);
 	VERIF_ASSUME(ino != NULL);
+	/* payload first (stores at symbolic offsets), the fixed header after
+	 * it: cbmc then still sees the header fields - the type tag above all -
+	 * as the constants / symbols assigned here */
+	if (type == SQFS_INODE_SLINK || type == SQFS_INODE_EXT_SLINK)
+		((char *)ino->extra)[g->tlen] = '\0';
+	if (type == SQFS_INODE_EXT_DIR) {
+		for (i = 0; i < nent; ++i) {
+			sqfs_dir_index_t hdr;
+
+			hdr.start_block = verif_nd_u32("ino.ent.start");
+			hdr.index = verif_nd_u32("ino.ent.index");
+			hdr.size = g->ent_size[i];
+			(memcpy)((char *)ino->extra + g->ent_off[i], &hdr, 12);
+		}
+	}
 	ino->base.type = (sqfs_u16)type;
 	ino->base.mode = (sqfs_u16)((verif_nd_u16("ino.mode") & 07777) |
 				    w13_ifmt(type));
@@ -493,7 +567,6 @@ static sqfs_inode_generic_t *w13_new_inode(unsigned type, unsigned nent,
 		ino->data.slink_ext.target_size = (sqfs_u32)g->tlen;
 		if (type == SQFS_INODE_EXT_SLINK)
 			ino->data.slink_ext.xattr_idx = verif_nd_u32("ino.w1");
-		((char *)ino->extra)[g->tlen] = '\0';
 		break;
 	case SQFS_INODE_BDEV:
 	case SQFS_INODE_CDEV:
@@ -523,14 +596,6 @@ static sqfs_inode_generic_t *w13_new_inode(unsigned type, unsigned nent,
 		/* index entries only exist for a non-empty listing */
 		if (nent > 0)
 			VERIF_ASSUME(ino->data.dir_ext.size != 0);
-		for (i = 0; i < nent; ++i) {
-			sqfs_dir_index_t hdr;
-
-			hdr.start_block = verif_nd_u32("ino.ent.start");
-			hdr.index = verif_nd_u32("ino.ent.index");
-			hdr.size = g->ent_size[i];
-			(memcpy)((char *)ino->extra + g->ent_off[i], &hdr, 12);
-		}
 		break;
 	case SQFS_INODE_EXT_FILE: {
 		unsigned bs_log = verif_nd_u8("super.block_log");
